@@ -34,7 +34,8 @@ def cases(tier, seed):
     yield dict(kind='ids')
     dims = [('ninst', [1, 2]), ('nbeads', [1, 0, 2]), ('nsamples', [2, 1, 3]), ('units', ['mixed', 'all-mef', 'channel', 'none', 'all-rfi']),
             ('cont', ['int', 'float']), ('plot', [False, True]), ('hist', [False, True]), ('outpath', ['default', 'explicit']),
-            ('nfl', [2, 3, 4, 11]), ('cluster', ['all', 'one']), ('wbname', ['experiment', 'cells', 'samples.x', 'xls', 'Tables 2020-01'])]
+            ('nfl', [2, 3, 4, 11]), ('cluster', ['all', 'one']), ('wbname', ['experiment', 'cells', 'samples.x', 'xls', 'Tables 2020-01']),
+            ('ids', ['text', 'numbers'])]
     if tier == 'quick':
         cfgs = [dict(ninst=1, nbeads=1, nsamples=2, units='mixed', cont='int', plot=True, hist=True, outpath='default', nfl=2, cluster='all'),
                 dict(ninst=1, nbeads=1, nsamples=1, units='all-mef', cont='int', plot=True, hist=False, outpath='explicit', nfl=3, cluster='all'),
@@ -45,7 +46,8 @@ def cases(tier, seed):
                 dict(ninst=1, nbeads=1, nsamples=1, units='all-rfi', cont='int', plot=True, hist=True, outpath='default', nfl=11, cluster='one'),
                 dict(ninst=1, nbeads=1, nsamples=2, units='mixed', cont='float', plot=False, hist=True, outpath='default', nfl=2, cluster='all', wbname='cells'),
                 dict(ninst=1, nbeads=0, nsamples=1, units='channel', cont='int', plot=False, hist=False, outpath='default', nfl=2, cluster='all', wbname='samples.x'),
-                dict(ninst=1, nbeads=0, nsamples=1, units='none', cont='int', plot=False, hist=True, outpath='default', nfl=2, cluster='all', wbname='xls')]
+                dict(ninst=1, nbeads=0, nsamples=1, units='none', cont='int', plot=False, hist=True, outpath='default', nfl=2, cluster='all', wbname='xls'),
+                dict(ninst=2, nbeads=2, nsamples=2, units='mixed', cont='int', plot=True, hist=True, outpath='default', nfl=2, cluster='all', ids='numbers')]
     else:
         cfgs = list(explore.deviations(dims, 1)) + [c for c in explore.deviations(dims, 2) if c['_dev'] == 2 and c['plot'] and (c['nfl'] == 3 or c['hist'])]
     for cfg in cfgs:
@@ -161,12 +163,19 @@ def build(cfg, d):
     from . import c10
     insts = [wg.instrument(i, nfl=cfg['nfl']) for i in range(cfg['ninst'])]
     beads, samples = [], []
+    # row identifiers as a user may type them: text, or plain numbers (which Excel stores as numbers)
+    ids = cfg.get('ids', 'text')
+    bead_id = (lambda k: 'B%03d' % (k + 1)) if ids == 'text' else (lambda k: k + 1)
+    sample_id = (lambda k: 'S%04d' % (k + 1)) if ids == 'text' else (lambda k: 101 + k)
+    if ids == 'numbers':
+        for i, inst in enumerate(insts):
+            inst['id'] = 7 + i
     for k in range(cfg['nbeads']):
         inst = insts[k % len(insts)]
         lay, truth = wg.bead_layout(inst, stream=60 + k, container=cfg['cont'])
         wg.write_fcs(os.path.join(d, 'FCFiles', 'beads%d.fcs' % k), lay)
         cl = ', '.join(inst['fl']) if cfg['cluster'] == 'all' else inst['fl'][0]
-        beads.append(dict(id='B%03d' % (k + 1), inst=inst['id'], file='./FCFiles/beads%d.fcs' % k, gate_fraction=0.3, cluster=cl,
+        beads.append(dict(id=bead_id(k), inst=inst['id'], file='./FCFiles/beads%d.fcs' % k, gate_fraction=0.3, cluster=cl,
                           mef={ch: wg.mef_string(truth, ci) for ci, ch in enumerate(inst['fl'][:2])}, inst_obj=inst, lot='AJ0%d' % k))
     for k in range(cfg['nsamples']):
         inst = insts[k % len(insts)]
@@ -180,7 +189,7 @@ def build(cfg, d):
         if cfg['units'] == 'all-rfi':
             for ch in inst['fl'][2:]:
                 units[ch] = 'RFI'              # every fluorescence channel of the instrument is reported
-        samples.append(dict(id='S%04d' % (k + 1), inst=inst['id'], beads=mine[0]['id'] if mine else None, file='./FCFiles/cells%d.fcs' % k,
+        samples.append(dict(id=sample_id(k), inst=inst['id'], beads=mine[0]['id'] if mine else None, file='./FCFiles/cells%d.fcs' % k,
                             gate_fraction=0.85, units=units, inst_obj=inst))
     wb = os.path.join(d, cfg.get('wbname', 'experiment') + '.xlsx')
     mcols, ucols = [], []
